@@ -246,39 +246,53 @@ def _solve_obligation(c, base, feas, feas_inputs, i, ob, timeout_s, conn):
     conn.send(('res', i, res))
 
 
-def solve_path(claim, decisions, only, timeout_s, conn):
-    """worker body: re-execute one path, discharge its obligations, stream results"""
-    c, h, status, info = run_path(claim, decisions)
+def _feasibility(c, timeout_s):
+    """is assumptions /\ path satisfiable?  Infeasible paths are usually refuted by one decision plus a few
+    assumptions, so every decision is first tried as the goal of a cone-of-influence relaxation."""
     base = list(c.assumptions) + list(c.path)
-    conn.send(('start', 'feas'))
-    # infeasible paths are usually refuted by their last decision plus a few assumptions: slice around it
-    r = None
     t0 = time.time()
     for k in range(len(c.path) - 1, -1, -1):
         rest = list(c.assumptions) + list(c.path[:k]) + list(c.path[k + 1:])
         for sl in _slices(rest, c.path[k]):
             if _solve(sl + [c.path[k]], 2.0)[0] == 'unsat':
-                r, model, dt = 'unsat', None, time.time() - t0
-                break
-        if r is not None or time.time() - t0 > timeout_s:
+                return 'unsat', None, time.time() - t0
+        if time.time() - t0 > timeout_s:
             break
-    if r is None:
-        r, model, dt = _check(base, timeout_s)
-        dt += time.time() - t0
-    feas = r
-    msg = dict(kind='feas', result=r, time=dt, status=status, info=info, nassume=len(c.assumptions), npath=len(c.path),
-               notes=[str(n)[:160] for n in c.notes[:6]])
-    if r == 'sat':
-        msg['inputs'] = _model_inputs(c, model)
+    r, model, dt = _check(base, timeout_s)
+    return r, model, time.time() - t0
+
+
+def solve_path(claim, decisions, only, timeout_s, conn, feas_mode='auto'):
+    """worker body: re-execute one path, discharge its obligations, stream results.
+    feas_mode: 'auto'  = decide path feasibility only when a verdict needs it (the path ends in an exception or an
+                         obligation is constant-false); proved obligations do not need it;
+               'always' = decide it first (vacuity stage); 'never' = skip."""
+    c, h, status, info = run_path(claim, decisions)
+    base = list(c.assumptions) + list(c.path)
+    todo = [(i, ob) for i, ob in enumerate(c.oblig) if only is None or i in only]
+    need = feas_mode == 'always' or (feas_mode == 'auto' and (
+        status != 'ok' or any(z3.is_false(z3.simplify(ob[1])) for _, ob in todo)))
+    msg = dict(kind='feas', result='skipped', time=0.0, status=status, info=info, nassume=len(c.assumptions),
+               npath=len(c.path), notes=[str(n)[:160] for n in c.notes[:6]], lemmas=getattr(c, 'nlemmas', 0))
+    feas = 'unknown'
+    if need:
+        conn.send(('start', 'feas'))
+        r, model, dt = _feasibility(c, timeout_s)
+        feas = r
+        msg.update(result=r, time=dt)
+        if r == 'sat':
+            msg['inputs'] = _model_inputs(c, model)
     conn.send(('res', 'feas', msg))
     if feas == 'unsat':
         conn.send(('done',))
         return
-    for i, ob in enumerate(c.oblig):
-        if only is not None and i not in only:
-            continue
+    for i, ob in todo:
         _solve_obligation(c, base, feas, msg.get('inputs'), i, ob, timeout_s, conn)
     conn.send(('done',))
+
+
+def solve_path_vacuity(claim, decisions, only, timeout_s, conn):
+    solve_path(claim, decisions, only, timeout_s, conn, feas_mode='always')
 
 
 def _worker(target, args, conn):
@@ -306,11 +320,27 @@ class Pool:
         self.active = {}   # conn -> dict(proc, job, last, deadline)
         self.ctx = mp.get_context('fork')
 
-    def run(self, jobs, on_msg, on_kill):
-        """jobs: iterable of (key, target, args, silence_limit_s); callbacks run in the parent"""
+    def run(self, jobs, on_msg, on_kill, deadline=None, label=''):
+        """jobs: iterable of (key, target, args, silence_limit_s); callbacks run in the parent.  After `deadline`
+        (epoch seconds) no new job is started and running ones are killed (reported through on_kill)."""
         jobs = list(jobs)
         jobs.reverse()
+        total = len(jobs)
+        last_report = time.time()
+        self.skipped = []
         while jobs or self.active:
+            if deadline is not None and time.time() > deadline:
+                self.skipped += [j[0] for j in jobs]
+                jobs = []
+                for conn, st in list(self.active.items()):
+                    st['proc'].kill()
+                    on_kill(st['key'], budget=True)
+                    self._finish(conn)
+                break
+            if time.time() - last_report > 30:
+                last_report = time.time()
+                print(f'  [{label}] jobs: {total - len(jobs) - len(self.active)} done, {len(self.active)} running, {len(jobs)} queued',
+                      file=sys.stderr, flush=True)
             while jobs and len(self.active) < self.n:
                 key, target, args, limit = jobs.pop()
                 pc, cc = self.ctx.Pipe(duplex=False)
@@ -336,7 +366,7 @@ class Pool:
             for conn, st in list(self.active.items()):
                 if now - st['last'] > st['limit']:
                     st['proc'].kill()
-                    more = on_kill(st['key'])
+                    more = on_kill(st['key'], budget=False)
                     if more:
                         jobs.extend(reversed(list(more)))
                     self._finish(conn)
@@ -460,10 +490,12 @@ def main(argv=None):
         elif msg[0] == 'error':
             errors.append((key, msg[1], msg[2]))
 
-    def on_kill1(key):
+    def on_kill1(key, budget=False):
         errors.append((key, 'exploration timed out', ''))
 
-    pool.run([(c.name, explore_job, (c,), 300) for c in claims], on_msg1, on_kill1)
+    budget = getattr(hmod, 'WALL_BUDGET', {}).get(tier, 420 if tier == 'quick' else 2400)
+    deadline = t_start + budget
+    pool.run([(c.name, explore_job, (c,), 300) for c in claims], on_msg1, on_kill1, label=f'{prop} explore')
     if errors:
         for e in errors:
             print('HARNESS-ERROR exploring', e[0], e[1], '\n', e[2])
@@ -481,8 +513,8 @@ def main(argv=None):
             to = c.timeout.get(tier, qto) if isinstance(c.timeout, dict) else (c.timeout or qto)
             n = len(p['labels'])
             if c.split and n > 1:
-                for i in range(n):
-                    jobs.append(((c.name, pi, (i,)), solve_path, (c, p['decisions'], {i}, to), 2 * to + 15))
+                # feasibility once; the per-obligation jobs are queued when it is not `unsat`
+                jobs.append(((c.name, pi, 'feas-only'), solve_path, (c, p['decisions'], set(), to), 2 * to + 15))
             else:
                 jobs.append(((c.name, pi, None), solve_path, (c, p['decisions'], None, to), 2 * to + 15))
 
@@ -494,19 +526,35 @@ def main(argv=None):
         elif msg[0] == 'res':
             R['inflight'] = None
             if msg[1] == 'feas':
-                if R['feas'] is None or R['feas'].get('result') != 'sat':
+                if R['feas'] is None or (R['feas'].get('result') != 'sat' and msg[2].get('result') != 'skipped') \
+                        or R['feas'].get('result') == 'skipped':
                     R['feas'] = msg[2]
+                if key[2] == 'vacuity':
+                    return None
+                if key[2] == 'feas-only' and msg[2]['result'] != 'unsat':
+                    c = reg.claims[cn]
+                    p = paths[cn][pi]
+                    to = c.timeout.get(tier, qto) if isinstance(c.timeout, dict) else (c.timeout or qto)
+                    return [((cn, pi, (i,)), solve_path_nofeas, (c, p['decisions'], {i}, to), 2 * to + 15)
+                            for i in range(len(p['labels']))]
             else:
                 R['obl'][msg[1]] = msg[2]
         elif msg[0] == 'error':
             errors.append((key, msg[1], msg[2]))
 
-    def on_kill2(key):
+    def on_kill2(key, budget=False):
         cn, pi, only = key
         R = results[(cn, pi)]
         p = paths[cn][pi]
         c = reg.claims[cn]
         infl = R.get('inflight')
+        if only == 'vacuity':
+            if R['feas'] is None or R['feas'].get('result') == 'skipped':
+                R['feas'] = dict(result='unknown', status=p['status'], info=p['info'], time=0.0, killed=True)
+            R['inflight'] = None
+            return None
+        if only == 'feas-only':
+            only = None
         to = c.timeout.get(tier, qto) if isinstance(c.timeout, dict) else (c.timeout or qto)
         if infl == 'feas' or infl is None:
             if R['feas'] is None:
@@ -516,13 +564,32 @@ def main(argv=None):
             R['obl'][infl] = dict(kind=p['kinds'][infl], label=p['labels'][infl], result='unknown', time=to, killed=True)
         rest = [i for i in range(len(p['labels'])) if i not in R['obl'] and (only is None or i in only)]
         R['inflight'] = None
+        if budget:
+            return None
         if rest and not (infl == 'feas' and R.get('feas_killed')):
             if infl == 'feas':
                 R['feas_killed'] = True
             return [((cn, pi, tuple(rest)), solve_path_nofeas, (c, p['decisions'], set(rest), to), 2 * to + 15)]
         return None
 
-    pool.run(jobs, on_msg2, on_kill2)
+    import random as _random
+    _random.Random(seed).shuffle(jobs)       # spread the heavy claims over the run (verdicts do not depend on order)
+    pool.run(jobs, on_msg2, on_kill2, deadline=deadline, label=f'{prop} solve')
+    budget_hit = bool(pool.skipped) or time.time() > deadline
+    # ---- stage 2b: vacuity -- every claim needs one path known to be feasible (reachability twin)
+    vjobs = []
+    for c in claims:
+        ps = paths[c.name]
+        if any((results[(c.name, pi)]['feas'] or {}).get('result') == 'sat' for pi in range(len(ps))):
+            continue
+        okp = [pi for pi, p in enumerate(ps) if p['status'] == 'ok' and p['decisions'] is not None]
+        okp.sort(key=lambda pi: len(ps[pi]['decisions']))
+        okp = okp[:3] + okp[-3:] if len(okp) > 6 else okp
+        to = c.timeout.get(tier, qto) if isinstance(c.timeout, dict) else (c.timeout or qto)
+        for pi in dict.fromkeys(okp):
+            vjobs.append(((c.name, pi, 'vacuity'), solve_path_vacuity, (c, ps[pi]['decisions'], set(), to), 2 * to + 15))
+    if vjobs:
+        pool.run(vjobs, on_msg2, on_kill2, deadline=max(deadline, time.time() + 60), label=f'{prop} vacuity')
     if errors:
         for e in errors:
             print('HARNESS-ERROR solving', e[0], e[1], '\n', e[2])
@@ -547,13 +614,16 @@ def main(argv=None):
                 continue
             stats['queries'] += 1
             stats['solver_s'] += fe.get('time', 0.0)
+            if fe['result'] == 'skipped':
+                stats['queries'] -= 1
+                stats['feas_skipped'] = stats.get('feas_skipped', 0) + 1
             if fe['result'] == 'unsat':
                 stats['infeasible'] += 1
                 continue
             if fe['result'] == 'sat':
                 stats['feasible'] += 1
                 pc['feasible'] += 1
-            else:
+            elif fe['result'] != 'skipped':
                 stats['feas_unknown'] += 1
             if p['status'] == 'notenc':
                 if fe['result'] != 'unsat':
@@ -577,8 +647,10 @@ def main(argv=None):
                 if res is None:
                     stats['inconclusive'] += 1
                     pc['inconclusive'] += 1
-                    incon.append(f'{c.name}#p{pi}:{lab}: not run')
+                    incon.append(f'{c.name}#p{pi}:{lab}: not run' + (' (wall budget)' if budget_hit else ''))
                     continue
+                if res.get('how') == 'path-feasible' and res['result'] == 'unknown' and fe['result'] == 'sat':
+                    res = dict(res, result='sat', inputs=fe.get('inputs'))
                 if res['result'] == 'trivial':
                     stats['trivial'] += 1
                     stats['discharged'] += 1
@@ -677,6 +749,7 @@ def main(argv=None):
                 inconclusive=stats['inconclusive'], inconclusive_list=incon[:200], spurious=spurious[:100],
                 not_encodable=notenc[:100], paths_explored=stats['paths'], paths_feasible=stats['feasible'],
                 paths_infeasible=stats['infeasible'], paths_feasibility_unknown=stats['feas_unknown'],
+                paths_feasibility_not_needed=stats.get('feas_skipped', 0),
                 claims=len(claims), per_claim=per_claim, no_feasible_path=vacuous,
                 queries=stats['queries'], solver_seconds=round(stats['solver_s'], 2), per_query_timeout_s=qto,
                 solver=f'z3 {z3.get_version_string()} (default tactic, then qfnra-nlsat)',
